@@ -883,6 +883,35 @@ static Value builtin_array_new(Value *args) {
 
 static Value builtin_array_set(Value *args) {
     /* array_set(array, index, value) -> void */
+    if (args[0].type == VAL_DYN_ARRAY && args[0].as.dyn_array_val && args[1].type == VAL_INT) {
+        /* Arrays that were pushed to / removed from are dynamic arrays; array_set rejected them
+         * ("requires an array") and left the element unchanged at compile time */
+        DynArray *d = args[0].as.dyn_array_val;
+        long long index = args[1].as.int_val;
+        if (index < 0 || index >= dyn_array_length(d)) {
+            fprintf(stderr, "Runtime Error: Array index %lld out of bounds [0..%lld)\n",
+                    index, (long long)dyn_array_length(d));
+            exit(1);
+        }
+        switch (dyn_array_get_elem_type(d)) {
+            case ELEM_INT:
+                if (args[2].type == VAL_INT) { dyn_array_set_int(d, index, args[2].as.int_val); return create_void(); }
+                break;
+            case ELEM_FLOAT:
+                if (args[2].type == VAL_FLOAT) { dyn_array_set_float(d, index, args[2].as.float_val); return create_void(); }
+                break;
+            case ELEM_BOOL:
+                if (args[2].type == VAL_BOOL) { dyn_array_set_bool(d, index, args[2].as.bool_val); return create_void(); }
+                break;
+            case ELEM_STRING:
+                if (args[2].type == VAL_STRING) { dyn_array_set_string(d, index, strdup(args[2].as.string_val)); return create_void(); }
+                break;
+            default:
+                break;
+        }
+        fprintf(stderr, "Error: Type mismatch in array_set\n");
+        return create_void();
+    }
     if (args[0].type != VAL_ARRAY) {
         fprintf(stderr, "Error: array_set() requires an array as first argument\n");
         return create_void();
